@@ -23,7 +23,21 @@ def _model_worker(batch):
             for name, value in prog.get("globals_f") or []:
                 ip.main.attrs[name] = value
             view = []
+            kept = []
             for step in prog["steps"]:
+                if step[0] == "keep":
+                    kept.append(step[1])
+                    view.append({"k": "keep"})
+                    continue
+                if step[0] == "native":
+                    ip.host_define_native(step[1], step[2])
+                    view.append({"k": "native"})
+                    continue
+                if step[0] == "getg":
+                    view.append({"k": "getg", "text": ip.host_global_text(step[1], step[2])})
+                    continue
+                if step[0] == "exec":
+                    step = ("snip", kept[step[1]])
                 if step[0] == "reset":
                     ip.reset()
                     for name, value in prog.get("globals_f") or []:
@@ -89,6 +103,12 @@ def compare_step(model, real):
         return None if real.get("k") == "reset" and real.get("res") == "ok" else "reset failed: %s" % real
     if real.get("res") == "panic":
         return "host panic: %s @ %s" % (real.get("panic_msg"), real.get("panic_loc"))
+    if model["k"] in ("keep", "native"):
+        return None if real.get("k") == model["k"] and real.get("res") == "ok" else "host step %s failed: %s" % (model["k"], real)
+    if model["k"] == "getg":
+        if real.get("k") != "getg" or norm(real.get("text", "")) != norm(model["text"]):
+            return "host read of a global: expected %r got %r" % (model["text"], real.get("text"))
+        return None
     mo = normalise_ms([norm(t) for t in model["out"]])
     # the context of an ImportError for a module that does not compile quotes the compiler's
     # messages after a fixed head line; the model only predicts the head
